@@ -18,8 +18,11 @@ import (
 
 // runShutdown stops a running advertiser at instant tc while transmissions are pending or in
 // flight (scripted latencies), and records the ordered event log of the connection.
-func runShutdown(t *testing.T, out *vfh.Out, terminate bool, evs []advEvent, tc time.Duration, lat []time.Duration, failIdx int, atStop int) {
-	out.Pending(fmt.Sprintf("runShutdown terminate=%v stop=%v events=%+v latencies=%v failIdx=%d atStop=%d", terminate, tc, evs, lat, failIdx, atStop))
+// fwOff: IPv6 forwarding is switched off on the interface right before the stop (the usual order
+// of decommissioning a router: stop forwarding, then stop the daemon): the hosts were last told a
+// non-zero lifetime, so the final RA is owed to them whatever the interface's state is now.
+func runShutdown(t *testing.T, out *vfh.Out, terminate bool, evs []advEvent, tc time.Duration, lat []time.Duration, failIdx int, atStop int, fwOff bool) {
+	out.Pending(fmt.Sprintf("runShutdown terminate=%v stop=%v events=%+v latencies=%v failIdx=%d atStop=%d fwOff=%v", terminate, tc, evs, lat, failIdx, atStop, fwOff))
 	synctest.Test(t, func(t *testing.T) {
 		min, max := 200*time.Second, 600*time.Second
 		v := newVfAdv(vfAdvConfig(min, max, false, 1800*time.Second), terminate, nil)
@@ -49,7 +52,7 @@ func runShutdown(t *testing.T, out *vfh.Out, terminate bool, evs []advEvent, tc 
 		}()
 		synctest.Wait()
 
-		c := new(vfh.Toks).S("shut").B(terminate).I(int64(tc)).N(failIdx).N(atStop).N(len(lat))
+		c := new(vfh.Toks).S("shut").B(terminate).I(int64(tc)).N(failIdx).N(atStop).B(fwOff).N(len(lat))
 		for _, l := range lat {
 			c.I(int64(l))
 		}
@@ -93,6 +96,11 @@ func runShutdown(t *testing.T, out *vfh.Out, terminate bool, evs []advEvent, tc 
 			for k := 0; k < atStop; k++ {
 				v.conn.deliver(vfRead{m: advMessage(advEvent{kind: 0, host: 1 + k%4}), hop: 255, host: vfHosts[1+k%4].WithZone("vf0")})
 			}
+		}
+		if fwOff {
+			v.state.mu.Lock()
+			v.state.forwarding = false
+			v.state.mu.Unlock()
 		}
 		v.conn.mark('C')
 		cancel()
@@ -165,24 +173,25 @@ func verifC08(t *testing.T, r *vfh.Rand, out *vfh.Out) {
 		if r.Chance(1, 3) {
 			atStop = 1 + r.Intn(3)
 		}
-		runShutdown(t, out, r.Chance(2, 3), evs, tc, lat, fail, atStop)
+		runShutdown(t, out, r.Chance(2, 3), evs, tc, lat, fail, atStop, r.Chance(1, 3))
 	}
 	// idle stop, terminate and reload
 	for _, term := range []bool{true, false} {
-		runShutdown(t, out, term, nil, 10*time.Second+1, []time.Duration{0, 0, 5 * time.Millisecond}, -1, 0)
+		runShutdown(t, out, term, nil, 10*time.Second+1, []time.Duration{0, 0, 5 * time.Millisecond}, -1, 0, false)
+		runShutdown(t, out, term, nil, 10*time.Second+1, []time.Duration{0, 0, 5 * time.Millisecond}, -1, 0, true)
 		// the first periodic RA (due at 3 s) still in flight at the stop instant
-		runShutdown(t, out, term, nil, 3500*time.Millisecond+1, []time.Duration{0, 2 * time.Second, 10 * time.Millisecond}, -1, 0)
+		runShutdown(t, out, term, nil, 3500*time.Millisecond+1, []time.Duration{0, 2 * time.Second, 10 * time.Millisecond}, -1, 0, false)
 		for k := 1; k <= 3; k++ {
-			runShutdown(t, out, term, nil, 3500*time.Millisecond+1, []time.Duration{0, 2 * time.Second, 10 * time.Millisecond}, -1, k)
+			runShutdown(t, out, term, nil, 3500*time.Millisecond+1, []time.Duration{0, 2 * time.Second, 10 * time.Millisecond}, -1, k, k == 2)
 		}
 		// …and failing while in flight
-		runShutdown(t, out, term, nil, 3500*time.Millisecond+1, []time.Duration{0, 2 * time.Second, 10 * time.Millisecond}, 1, 0)
+		runShutdown(t, out, term, nil, 3500*time.Millisecond+1, []time.Duration{0, 2 * time.Second, 10 * time.Millisecond}, 1, 0, false)
 		// the stop at the very instant the first periodic RA is due (3 s): the timer and the
 		// cancellation race; whichever wins, the final RA must come last and nothing after Run
 		// has returned (repeated: the interleaving differs from run to run)
 		for k := vfh.N(120, 1500); k > 0; k-- {
 			for _, l := range []time.Duration{0, 3 * time.Millisecond, 400 * time.Millisecond} {
-				runShutdown(t, out, term, nil, 3*time.Second, []time.Duration{0, l, 7 * time.Millisecond}, -1, 0)
+				runShutdown(t, out, term, nil, 3*time.Second, []time.Duration{0, l, 7 * time.Millisecond}, -1, 0, false)
 			}
 		}
 	}
